@@ -68,3 +68,37 @@ def fullDecomp : Nat → Nat → List Nat
 def decompose (xs : List Nat) : List Nat := xs.flatMap (fullDecomp 4)
 
 end SafeC.UCD
+
+namespace SafeC.UCD
+open SafeC.Gen
+open SafeC.Norm (cell)
+
+/-- i-th primary composite of UCD 14.0 in (first, second) order -/
+def compEntry (i : Nat) : Nat × Nat × Nat :=
+  (cell 32 UCD14.compP (3 * i), cell 32 UCD14.compP (3 * i + 1), cell 32 UCD14.compP (3 * i + 2))
+
+/-- binary search for the pair `(a, b)` among the primary composites (`fuel` halvings) -/
+def tableCompose (a b : Nat) : Nat → Nat → Nat → Option Nat
+  | 0, _, _ => none
+  | fuel + 1, lo, hi =>
+    if lo ≥ hi then none else
+    let mid := (lo + hi) / 2
+    let t := compEntry mid
+    if t.1 = a ∧ t.2.1 = b then some t.2.2
+    else if t.1 < a ∨ (t.1 = a ∧ t.2.1 < b) then tableCompose a b fuel (mid + 1) hi
+    else tableCompose a b fuel lo mid
+
+/-- Hangul syllable composition (Unicode Standard 3.12): L + V, LV + T -/
+def hangulCompose (a b : Nat) : Option Nat :=
+  if LBase ≤ a ∧ a < LBase + LCount ∧ VBase ≤ b ∧ b < VBase + VCount then
+    some (SBase + ((a - LBase) * VCount + (b - VBase)) * TCount)
+  else if isHangulS a = true ∧ (a - SBase) % TCount = 0 ∧ TBase < b ∧ b < TBase + TCount then some (a + (b - TBase))
+  else none
+
+/-- D114: the primary composite canonically equivalent to `<a, b>`, if there is one -/
+def primaryComposite (a b : Nat) : Option Nat :=
+  match hangulCompose a b with
+  | some s => some s
+  | none => tableCompose a b 12 0 UCD14.compN
+
+end SafeC.UCD
